@@ -378,6 +378,48 @@ def v_len(p):
   p.verify('ClientDataset.__len__', eng, body)
 
 
+def v_entry_points(p):
+  """ClientDataset.batch / padded_batch / shuffle_repeat_batch: the view is built from `hparams` with EVERY keyword override
+  applied (a falsy override such as drop_remainder=False or num_epochs=None included); without an hparams object the keywords
+  construct it."""
+  import ast
+  from ..extract import parse
+  views = {'batch': ('BatchView', 'BatchHParams', 'drop_remainder', 'bool'),
+           'padded_batch': ('PaddedBatchView', 'PaddedBatchHParams', 'num_batch_size_buckets', 'int'),
+           'shuffle_repeat_batch': ('ShuffleRepeatBatchView', 'ShuffleRepeatBatchHParams', 'drop_remainder', 'bool')}
+  for meth, (view, hp_cls, field, sort) in views.items():
+    ex = p.extract(F, f'ClientDataset.{meth}')
+    rec = {}
+    eng = Engine({view: Handler(lambda c, ds, hp, rec=rec: rec.setdefault('hp', hp) or hp, view)})
+    eng.sources = [F]
+    new = z3.Bool('override') if sort == 'bool' else z3.Int('override')
+    old = z3.Bool('hparams_value') if sort == 'bool' else z3.Int('hparams_value')
+    bs = z3.Int('batch_size')
+
+    def body(ctx, ex=ex, hp_cls=hp_cls, field=field, rec=rec, new=new, old=old, eng=eng):
+      rec.clear()
+      ctx.model_vars.update(override=new, hparams_value=old, batch_size=bs)
+      cls = eng._resolve_in(ctx, F, hp_cls)[0]
+      fields = {n: (d if d is not None else None) for n, d in (cls.dc_fields or [])}
+      fields.update({'batch_size': bs, field: old})
+      hp = ctx.alloc(ObjCell(cls, fields, owner='param', label='hparams'))
+      selfr = ctx.alloc(ObjCell(None, {}, owner='param', label='self'))
+      kind, r = eng.run_function(ctx, ex.funcv(), [selfr, hp], {field: new})
+      ctx.oblige('entry.noraise', kind == 'return')
+      got = rec.get('hp')
+      ok = kind == 'return' and isinstance(got, Ref) and isinstance(got.cell(ctx), ObjCell)
+      ctx.oblige('entry.view', ok, detail=f'{meth} builds its view from an hparams object')
+      if not ok:
+        return
+      f = got.cell(ctx).fields
+      ctx.oblige('entry.override', z3.And(to_z3(f.get(field)) == new, to_z3(f.get('batch_size')) == bs),
+                 detail=f'{meth}(hparams, {field}=v): the view sees {field} = v for EVERY v (falsy values included) and the other '
+                        'fields of hparams unchanged')
+      ctx.oblige('frame.hparams', to_z3(hp.cell(ctx).fields[field]) is not None and hp.cell(ctx).fields[field] is old,
+                 detail="the caller's hparams object is not modified")
+    p.verify(f'ClientDataset.{meth}[entry]', eng, body)
+
+
 def build(p):
   D = 'native/C03.py'
   p.native('_pick_final_batch_size', D, '_pick_final_batch_size', lambda m: dict(
@@ -388,6 +430,8 @@ def build(p):
   p.native('PaddedBatchView', D, 'PaddedBatchView', lambda m: dict(
       N=m['N'], batch_size=m['batch_size'],
       num_batch_size_buckets=m['num_batch_size_buckets']))
+  p.native('ClientDataset.', D, 'entry')
+  v_entry_points(p)
   lemma_mono(p)
   euclid_lemma(p)
   v_pick(p)
